@@ -6,7 +6,7 @@
    already-done) input states. *)
 From Coq Require Import List NArith.
 Import ListNotations.
-From TV Require Import Lib.Obs C36.Model C36.Run C36.Proofs C36.ProofsMulti C36.ProofsChain C36.ProofsWait C36.ProofsMain C36.ProofsCheck.
+From TV Require Import Lib.Obs C36.Model C36.Run C36.Proofs C36.ProofsMulti C36.ProofsChain C36.ProofsWait C36.ProofsMain C36.ProofsCheck C36.ProofsP4 C36.ProofsP4Log.
 
 (* ---------------- multi ---------------- *)
 (* Safety: whenever the combined future is done, it is either cancelled by its
@@ -116,7 +116,67 @@ Theorem C36_chain_settles_after_steps : forall a0 b0 es,
 Proof. exact chain_settles. Qed.
 Print Assumptions C36_chain_settles_after_steps.
 
+(* chain_future's copy callback as a function: for EVERY outcome of the source (result, exception,
+   cancelled) and EVERY state of the target, a pending target receives exactly the source's
+   outcome, a done/cancelled target is left alone, nothing is raised, nothing else changes *)
+Theorem C36_chain_future_copy_transfers : forall w o,
+  c_a w = Some o ->
+  c_b (c_copy w) = match c_b w with Some x => Some x | None => Some o end /\
+  c_err (c_copy w) = c_err w /\ c_a (c_copy w) = c_a w /\ c_ready (c_copy w) = c_ready w.
+Proof. exact chain_copy_transfers. Qed.
+Print Assumptions C36_chain_future_copy_transfers.
+
+(* chain_future(a, b) with a source that is already done copies at once *)
+Theorem C36_chain_future_done_source : forall o b,
+  c_b (c_create (Some o) b) = match b with Some x => Some x | None => Some o end /\
+  c_err (c_create (Some o) b) = 0 /\ c_ready (c_create (Some o) b) = 0.
+Proof. exact chain_create_done. Qed.
+Print Assumptions C36_chain_future_done_source.
+
+(* every schedule, source settled before or after chaining, any initial target: once the source has
+   settled (with o) and the queued callback has run, the target is settled -- with o, unless it had
+   been settled from outside, in which case it keeps that outcome -- and nothing was raised *)
+Theorem C36_chain_future_transfers : forall a0 b0 es,
+  let w := c_run (c_create a0 b0) es in
+  let w' := c_run w (repeat Step (c_ready w)) in
+  forall o, src_final a0 es = Some o ->
+  c_err w' = 0 /\ c_ready w' = 0 /\ c_a w' = Some o /\
+  (c_b w' = Some o \/ (tgt_ext b0 es <> None /\ c_b w' = tgt_ext b0 es)).
+Proof. exact chain_transfers. Qed.
+Print Assumptions C36_chain_future_transfers.
+
 (* ---------------- with_timeout ---------------- *)
+(* with_timeout's copy task IS chain_future's copy (on the pair input/wrapper) ... *)
+Theorem C36_timeout_copy_is_chain_future_copy : forall w,
+  t_r (t_copy w) = c_b (c_copy (chain_view w)) /\ t_err (t_copy w) = c_err (c_copy (chain_view w)) /\
+  t_a (t_copy w) = t_a w /\ t_ready (t_copy w) = t_ready w /\ t_log (t_copy w) = t_log w /\
+  t_cancelled (t_copy w) = t_cancelled w /\ t_errcb (t_copy w) = t_errcb w /\ t_loc (t_copy w) = t_loc w.
+Proof. exact t_copy_is_chain_copy. Qed.
+Print Assumptions C36_timeout_copy_is_chain_future_copy.
+
+(* ... so (derived from C36_chain_future_copy_transfers) a pending wrapper receives the settled
+   input's outcome, cancellation included *)
+Theorem C36_timeout_copy_transfers : forall w o,
+  t_a w = Some o ->
+  t_r (t_copy w) = match t_r w with Some x => Some x | None => Some o end /\ t_err (t_copy w) = t_err w.
+Proof. exact timeout_copy_transfers. Qed.
+Print Assumptions C36_timeout_copy_transfers.
+
+(* the wrapper is never left pending once the input settled or the deadline passed *)
+Theorem C36_timeout_never_left_pending : forall qs a0 es,
+  let w := t_run (t_create qs a0) es in
+  src_final a0 es <> None \/ In TimerFire es ->
+  t_r (t_run w (repeat Step (length (t_ready w)))) <> None.
+Proof. exact timeout_never_left_pending. Qed.
+Print Assumptions C36_timeout_never_left_pending.
+
+(* with_timeout logs at most once, and only when the timer won the race *)
+Theorem C36_timeout_logs_at_most_once_and_only_if_timer_won : forall qs a0 es,
+  let w := t_run (t_create qs a0) es in
+  t_log w <= 1 /\ (t_log w <> 0 -> race a0 es = ByTimer).
+Proof. intros. split; [apply timeout_log_at_most_once|apply timeout_log_only_if_timer_won]. Qed.
+Print Assumptions C36_timeout_logs_at_most_once_and_only_if_timer_won.
+
 (* [race a0 es] is decided by the first of {the input completes, the deadline
    passes} (an already-done input wins at once).  The returned future, when done,
    holds exactly that verdict (the input's outcome, cancellation included, or
